@@ -22,6 +22,8 @@ func checkC02(r *Run) {
 	ruleA2(r, p)                        // an element separator doubled or lost in one entry point (Array.Err vs Errs vs Fields) is a different encoding of the same value
 	ruleWithCarriesContext(r, p, "A12") // a child logger starts from all of its parent's context bytes
 	ruleErrReachesField(r, p, "ERRFIELD")
+	ruleEncodersStateless(r, p, "STATELESS", []string{"internal/json", cborRel})
+	ruleTypeSwitchNoShadow(r, p, "A5")
 	ruleDurationArithmetic(r, p, "DUR")
 	ruleA12Copy(r, p) // two loggers appending into one context array corrupt each other's fields (C05's rule)
 	ruleA4Confine(r, p)
